@@ -189,3 +189,17 @@ def check_spec_roundtrip(plot, ref):
         for b in range(len(lev["idx"])):
             if not refread.same_bits(lev["data"][b], plot.box_data(l, b)):
                 raise HarnessError(f"reference reader disagrees with the generator on level {l} box {b} data")
+
+
+def run_main(main, argv):
+    """Call a console entry point in-process with the given argv; a non-zero exit status becomes an exception."""
+    import sys
+    old = sys.argv
+    sys.argv = list(argv)
+    try:
+        qcall(main)
+    except SystemExit as e:
+        if e.code not in (None, 0):
+            raise RuntimeError(f"exit status {e.code}")
+    finally:
+        sys.argv = old
